@@ -105,3 +105,6 @@ add("C06", M, UP, "        ratio_bound_slack: float = 0.0,", "        ratio_boun
 add("C01", M, MF, "            all_data[col_name] = np.asarray(param_value)", "            all_data[col_name] = logger.__dict__.setdefault(id(param_value), np.asarray(param_value))", "module-level cache keyed by id()")
 add("C01", M, MF, "                return underlying_result.iloc[:, 0]", "                return underlying_result.squeeze()", "shape-dependent unwrap")
 add("C09", R, GS, "                    (1.0 - self.constraint_weight) * self.objectives_[i]", "                    (1 - self.constraint_weight) * self.objectives_[i]", "integer literal")
+add("C04", M, TC, '{"x": x_list, "y": y_list, "operation": operation_list}', '{"x": y_list, "y": x_list, "operation": operation_list}', "swept points with x and y exchanged")
+add("C05", M, TC, "    scores = list(data_sorted[SCORE_KEY])", "    scores = data_sorted[SCORE_KEY]", "label-indexed Series instead of a list")
+add("C04", R, TC, '        pd.DataFrame({"x": x_list, "y": y_list, "operation": operation_list})\n        .sort_values(by=["x", "y"])', '        pd.DataFrame({"operation": operation_list, "y": y_list, "x": x_list})\n        .sort_values(by=["x", "y"])', "column order of the points frame")
